@@ -74,6 +74,17 @@ UE7 == WithDefault(UEnum("UE7", 1, << <<U8>>, <<>>, <<V_u8_u8>> >>), 2)      \* 
 UE8 == UEnum("UE8", 1, << <<X_vu8_u8>> >>)
 UE9 == Portable(UEnum("UE9", 1, << <<>>, <<LeF32, SS4>>, <<US6>> >>))
 
+UE10 == UEnum("UE10", 1, << <<>>, <<U8, U32, V_u8_u16>> >>)                  \* interior padding before a field, tail less aligned
+UE11 == UEnum("UE11", 1, << <<U8>>, <<U8, U32, U8>>, <<U16>> >>)             \* sized 3-field variant with interior padding, not the smallest
+UE12 == WithDefault(UEnum("UE12", 1, << <<>>, <<>>, <<V_u8_u8>> >>), 2)       \* two unit variants, #[default] on the second
+UE13 == WithDefault(UEnum("UE13", 2, << <<>>, <<U8>>, <<V_u8_u8>> >>), 1)     \* wide tag with a default
+UE14 == UEnum("UE14", 1, << <<>>, <<U8, UE2>> >>)                            \* unsized enum as the tail of a variant
+US9  == UStruct("US9", <<U32, Vec(SS5, U8)>>)                                \* tail whose element size (3) divides nothing
+US10 == WithDefault(UStruct("US10", <<U8, U64, V_u8_u16>>), 1)               \* 7 bytes of interior padding, tail align 2 < 8
+PE16 == Portable(UEnum("PE16", 2, << <<>>, <<LeU16, Vec(U8, LeU16)>> >>))    \* known-bad: portable enum with a 2-byte native tag (finding #13)
+PS32 == Portable(Enum("PS32", 4, << <<>>, <<LeU32>> >>))                     \* known-bad: sized portable enum with a 4-byte tag
+V_unit_u8 == Vec(Unit, U8)                                                   \* zero-sized elements
+
 US5 == UStruct("US5", <<U8, UE1>>)
 X_us2_u16 == Flex(US2, U16)
 X_ue1_u8  == Flex(UE1, U8)
@@ -96,7 +107,8 @@ Catalog == <<
   C("X_us2_u16", X_us2_u16), C("X_ue1_u8", X_ue1_u8),
   C("US1", US1), C("US2", US2), C("US3", US3), C("US4", US4), C("US5", US5), C("US6", US6), C("US7", US7), C("US8", US8),
   C("UE1", UE1), C("UE2", UE2), C("UE3", UE3), C("UE4", UE4), C("UE5", UE5), C("UE6", UE6), C("UE7", UE7),
-  C("UE8", UE8), C("UE9", UE9)
+  C("UE8", UE8), C("UE9", UE9), C("UE10", UE10), C("UE11", UE11), C("UE12", UE12), C("UE13", UE13), C("UE14", UE14),
+  C("US9", US9), C("US10", US10), C("PE16", PE16), C("PS32", PS32)
 >>
 
 CatIds == {Catalog[i].id : i \in DOMAIN Catalog}
